@@ -18,7 +18,7 @@
    no key / a string key, with or without & (count), no exclusions, no regex keys; any operator of
    Match.v, negation, any transformation list, multiMatch, SecAction links, chains of any length.
    Outside: targets that read what the link's own matches / actions change while it is being
-   evaluated (TX, MATCHED_VAR: see b2_same_link_matched_var in the proofs file), request bodies
+   evaluated (TX, MATCHED_VAR: not in Setvar.v's covered variable table; see b2_same_link_matched_var_agree in the proofs file), request bodies
    (Setvar.v's ARGS is the query string only: b2_agree asks for empty ARGS_POST / path arguments). *)
 From Coq Require Import String ZArith.
 From Verif Require Import Base Utf8 Transform Match Setvar SetvarProofs.
